@@ -328,7 +328,7 @@ def _run_step(case):
                             scale[i, j] = abs(refspline.row_float(Sq, a % tp, 1) @ Cf @ rb0) + abs(ra0 @ Cf @ refspline.row_float(Sr, b, 1))
                 vt = 1e-11 * max(1.0, np.abs(f).max()) * Sq.cond_inf() * Sr.cond_inf() + (ftol * scale if not case['explicit'] else 1e-11 * scale)
                 err = np.abs(g - want)
-                bad = ok & (err > vt)
+                bad = ok & ~(err <= vt)          # NaN counts as wrong
                 if ok.any():
                     worst = max(worst, float((err[ok] / np.maximum(vt, 1e-300)[ok]).max()) if np.ndim(vt) else float(err[ok].max() / vt))
                 if bad.any():
@@ -399,7 +399,7 @@ def _order(case):
             diffs.append(d)
         if inner.any():
             e = [float(d[inner].max()) for d in diffs]
-            if e[1] > 1e-12 and e[2] > 1e-12 and not (e[0] / e[1] >= 6 and e[1] / e[2] >= 6):
+            if not (e[1] <= 1e-12 or e[2] <= 1e-12) and not (e[0] / e[1] >= 6 and e[1] / e[2] >= 6):          # NaN counts as wrong
                 sig = 'explicit-implicit-not-third-order'
                 viols[sig] = {'sig': sig, 'what': 'basis %s potential %s: |feet_expl-feet_impl| at dt=0.4,0.2,0.1 = %r (ratios %.2f, %.2f < 6)' % (
                     case['basis'], pot, e, e[0] / e[1], e[1] / e[2]), 'detail': {}}
